@@ -93,9 +93,13 @@ CLAIMED = {
         "failure, consumer failure / abandonment and the failure-free case run on both real processors - the threaded one under "
         "the deterministic scheduler for seeded random and priority-based schedules - and TLC judges every observation against "
         "PipelineObs.tla (original exception reaches the caller, no hang, no live threads, no silent truncation).",
-   note="Pipeline.tla is model-checked but not yet bound to the code by trace validation: the binding of the pipeline level is the "
-        "scheduler-driven exploration of the real code (sampled schedules, timeouts never fire, capacity 2/4 above every plugin lag).",
-   technique="TLA+ model checking of the exception relay (Pipeline.tla) + deterministic-scheduler exploration of the real pipeline judged by TLC (PipelineObs.tla)",
+   note="Binding of Pipeline.tla: every real chain run (source -> plugin -> plugin with savers, or with a loader) records, per scheduler "
+        "step, the acting thread and the projection of the real mailboxes (messages pushed, END pushed, killed, force_killed, class of "
+        "killed_because, _subscribers_have_read, _subscriber_waiting_for, finished threads, the caller's outcome); TLC accepts a trace iff "
+        "it is a behaviour of Pipeline.tla (PipelineTrace.tla; pcs and local buffers inferred) and evaluates the invariants along it. "
+        "Other topologies (diamond, multi-output) are judged at the P-level only. Schedules of the real pipeline are sampled; timeouts "
+        "never fire; capacity 2/4 above every plugin lag.",
+   technique="TLA+ model checking of the exception relay (Pipeline.tla) + TLC trace validation of real pipeline runs under a deterministic scheduler (PipelineTrace.tla) + P-level judgement by TLC (PipelineObs.tla)",
    design="4/C06"),
  "C13": dict(
    text="Mailbox level: spec/Mailbox.tla is model-checked over all schedules of every configuration for CapInv (eager: never more "
